@@ -38,6 +38,7 @@ Listing(pairs, ids) == LET o == SortedSeq(ids) IN [j \in 1..Len(o) |-> <<o[j], A
 \* ev.with_store    ((&changeset, &storage).join(): <<index, amount, component>>
 \* ev.store         contents of that storage <<index, component>>
 \* ev.after_mut     listing after (&mut changeset).join() appended ev.tag to every amount
+\* ev.after_mut2    listing after (&mut changeset, &storage).join() appended the paired component's id
 \* ev.value         amounts yielded by consuming the change set (first ev.take; all if < 0)
 \* ev.ledger        instrumented drop accounting of the amount values
 Check(ev) ==
@@ -48,8 +49,13 @@ Check(ev) ==
       o2 == SortedSeq(ids \cap sids)
       wantStore == [j \in 1..Len(o2) |-> <<o2[j], Acc(ev.pairs, o2[j], 1), compAt(o2[j])>>]
       wantMut == [j \in 1..Len(want) |-> <<want[j][1], "(" \o want[j][2] \o "+" \o ToString(ev.tag) \o ")">>]
-      n == IF ev.take < 0 \/ ev.take > Len(wantMut) THEN Len(wantMut) ELSE ev.take
-      wantValue == SubSeq(wantMut, 1, n)
+      \* then a mutable join together with the storage appended, to the amounts of the entities that have a
+      \* component there, the id of THAT component
+      wantMut2 == [j \in 1..Len(wantMut) |-> IF wantMut[j][1] \in sids
+                                             THEN <<wantMut[j][1], "(" \o wantMut[j][2] \o "+" \o ToString(compAt(wantMut[j][1])[1]) \o ")">>
+                                             ELSE wantMut[j]]
+      n == IF ev.take < 0 \/ ev.take > Len(wantMut2) THEN Len(wantMut2) ELSE ev.take
+      wantValue == SubSeq(wantMut2, 1, n)
       L == ev.ledger
       \* C19: clear() interrupted by a panicking destructor (ev.fclear = k > 0): afterwards the set
       \* lists nothing that was destroyed, accepts a new amount, and nothing is destroyed twice;
@@ -70,6 +76,7 @@ Check(ev) ==
        (IF ev.ref # want THEN {F("C16", "accumulated amounts (got, expected)", <<ev.ref, want>>)} ELSE {})
   \cup (IF ev.with_store # wantStore THEN {F("C16", "join with a storage (got, expected)", <<ev.with_store, wantStore>>)} ELSE {})
   \cup (IF ev.after_mut # wantMut THEN {F("C16", "after a mutable join (got, expected)", <<ev.after_mut, wantMut>>)} ELSE {})
+  \cup (IF ev.after_mut2 # wantMut2 THEN {F("C16", "after a mutable join together with a storage (got, expected)", <<ev.after_mut2, wantMut2>>)} ELSE {})
   \cup (IF ev.value # wantValue THEN {F("C16", "consuming the change set (got, expected)", <<ev.value, wantValue>>)} ELSE {})
   \* which values end where: the amount object of an entity is the one that arrived first (later ones are
   \* merged into it and destroyed by the library); consuming the set hands back exactly the objects of the
